@@ -1,7 +1,7 @@
 #!/bin/bash
 # usage: seedcheck.sh <seed-dir-name e.g. C13> <name-for-/verif/seeded> <check ids...>
-# Confirms a sub-agent's seeded change (build, suite, demo fails with / passes without), then applies it
-# to /repo, runs the given checks, and reverts /repo. Prints a summary; stores nothing by itself.
+# Confirms a sub-agent's seeded change (build, suite, demo fails with / passes without), then runs the given
+# checks against the scratch worktree that carries the change (VERIF_REPO), leaving /repo untouched. Prints a summary; stores nothing by itself.
 set -u
 ID=$1; NAME=$2; shift 2
 WT=/tmp/seed-$ID; OUT=/tmp/seed-$ID-out
@@ -23,12 +23,9 @@ if grep -q 'suite \*KeeperTestSuite\|testify/suite' $DEMO; then R="-run TestKeep
 go test -vet=off -count=1 $R $PKG $A 2>&1 | tail -5
 echo "--- demo on unchanged tree (expect PASS):"
 git diff > /tmp/seedcheck-hold.diff; git checkout -- $(git diff --name-only); go test -vet=off -count=1 $R $PKG $A 2>&1 | tail -3; git apply /tmp/seedcheck-hold.diff
-echo "--- applying to /repo and running checks: $*"
-cd /repo && git diff --quiet || { echo "/repo dirty"; exit 1; }
-git apply $OUT/patch.diff || { echo "PATCH DOES NOT APPLY"; exit 1; }
+echo "--- running checks against the worktree (VERIF_REPO=$WT): $*"
 for id in "$@"; do
-  out=$(cd /verif && ./check $id 2>&1)
-  echo "== $id: $(echo "$out" | grep -c '^VIOLATION') violation lines; $(echo "$out" | grep -E '^(HELD|INCONCLUSIVE)' | head -1)"
-  echo "$out" | grep -A2 '^VIOLATION' | grep 'what:\|detail:' | head -6
+  out=$(cd /verif && VERIF_REPO=$WT ./check $id 2>&1)
+  echo "== $id: $(echo "$out" | grep -a -c '^VIOLATION') violation lines; $(echo "$out" | grep -a -E '^(HELD|INCONCLUSIVE)' | head -1)"
+  echo "$out" | grep -a -A2 '^VIOLATION' | grep -a 'what:\|detail:' | head -6
 done
-git checkout -- . ; git status --short | head -3
